@@ -494,19 +494,19 @@ CanonSp(t) ==
 Reprint(toks) == Flatten([k \in 1..Len(toks) |-> CanonSp(toks[k]) \o <<32>>])
 
 \* laws of an item sequence (generator against tokenizer)
-LawSeq(items) ==
+LawSeqR(items, r) ==      \* r = Lex(PrintItems(items))
   LET b  == PrintItems(items)
       ex == Expect(items)
-      r  == Lex(b)
       nt == SelectSeq(items, LAMBDA it : it.cat \notin {"ws", "lcom", "lcomeof", "bcom"})
       r2 == Lex(Flatten([k \in 1..Len(nt) |-> nt[k].sp \o <<32>>]))
   IN  /\ Tiles(ex, Len(b))
       /\ r.st = "ok" /\ r.toks = ex                       \* print, then tokenize: same tokens
       /\ r2.st = "ok" /\ KVs(Strip(r2.toks)) = KVs(Strip(ex))   \* trivia do not change the others
 
+LawSeq(items) == LawSeqR(items, Lex(PrintItems(items)))
+
 \* laws of an arbitrary byte string
-LawBytes(b) ==
-  LET r == Lex(b) IN
+LawBytesR(b, r) ==          \* r = Lex(b)
   /\ r.st \in {"ok", "err", "outside"}
   /\ (r.st = "err" => r.at >= 0 /\ r.at < Len(b))
   /\ (r.st = "ok" =>
@@ -514,6 +514,8 @@ LawBytes(b) ==
         /\ Len(Strip(r.toks)) >= 1 /\ Last(Strip(r.toks)).kind = "EndOfFile"
         /\ LET r2 == Lex(Reprint(Strip(r.toks)))
            IN  r2.st = "ok" /\ KVs(Strip(r2.toks)) = KVs(Strip(r.toks)))
+
+LawBytes(b) == LawBytesR(b, Lex(b))
 
 \* UTF-8 laws
 LawScalar(cp) == IsScalar(cp) =>
